@@ -47,6 +47,7 @@ type desc struct {
 	Dly    int64   `json:"dly"`    // retry: fixed delay (units)
 	MaxD   int64   `json:"maxd"`   // retry: max duration (units)
 	Wait   int64   `json:"wait"`   // bulkhead: max wait time (units)
+	Rdf    bool    `json:"rdf"`    // retry: a delay function that reads the last error (1 unit after E1, 2 after E2, else 3)
 	Dfn    *int64  `json:"dfn"`    // breaker: open delay its delay function asks for (units); absent or -1: none
 	Per    int64   `json:"per"`    // bursty rate limiter of the sequential model: period (units); 0 = one endless period
 	Ival   int64   `json:"ival"`   // smooth rate limiter: interval (units); 0 = the sequential model's bursty limiter
@@ -79,6 +80,7 @@ type fsProbe struct {
 	M       []uint `json:"m"`
 	Left    int    `json:"left"`
 	Used    int    `json:"used"`
+	Permits int    `json:"permits"` // breaker: trial permits left when half-open (-1 otherwise)
 	Entries []struct {
 		K string `json:"k"`
 		V string `json:"v"`
@@ -174,6 +176,20 @@ func projectErr(err error) term {
 		if ex2, ok := err.(retrypolicy.ExceededError); ok {
 			lr, _ := ex2.LastResult.(string)
 			return term{Op: "Exceeded" + resName(lr), Ch: []term{projectErr(ex2.LastError)}}
+		}
+	}
+	// the scripts' own wrappers: WT(x), errors.Join(x, y), fmt.Errorf("%w", x)
+	if wt, ok := err.(WT); ok {
+		return term{Op: "WT", Ch: []term{projectErr(wt.Err)}}
+	}
+	if j, ok := err.(interface{ Unwrap() []error }); ok {
+		if es := j.Unwrap(); len(es) == 2 {
+			return term{Op: "J", Ch: []term{projectErr(es[0]), projectErr(es[1])}}
+		}
+	}
+	if _, isEx := err.(retrypolicy.ExceededError); !isEx {
+		if u := errors.Unwrap(err); u != nil {
+			return term{Op: "W", Ch: []term{projectErr(u)}}
 		}
 	}
 	return leaf("?" + err.Error())
@@ -606,6 +622,19 @@ func buildStack(stack []desc, unit time.Duration, rec *recorder) *builtStack {
 			}
 			if d.MaxD != 0 {
 				steps = append(steps, func() { b.WithMaxDuration(time.Duration(d.MaxD) * unit) })
+			}
+			if d.Rdf {
+				steps = append(steps, func() {
+					b.WithDelayFunc(func(exec failsafe.ExecutionAttempt[string]) time.Duration {
+						switch {
+						case errors.Is(exec.LastError(), errE1):
+							return unit
+						case errors.Is(exec.LastError(), errE2):
+							return 2 * unit
+						}
+						return 3 * unit
+					})
+				})
 			}
 			if d.Dly != 0 {
 				steps = append(steps, func() {
@@ -1088,6 +1117,16 @@ func replaySeq(b fsBehaviour, unit time.Duration, entry int, variant int) (mis [
 				cb := bs.breakers[id]
 				if st, m := stateName(cb.State()), metricsOf(cb.Metrics()); st != wp.State || !reflect.DeepEqual(m, wp.M) {
 					add(xi, "probe", "cb", "breaker %s is %s %v, spec %s %v", id, st, m, wp.State, wp.M)
+				}
+				// after the last execution: the trial permits a half-open breaker still has (taking them changes the breaker)
+				if xi == len(b.Execs)-1 && wp.State == "halfopen" && cb.State() == circuitbreaker.HalfOpenState {
+					left := 0
+					for i := 0; i < 50 && cb.TryAcquirePermit(); i++ {
+						left++
+					}
+					if left != wp.Permits {
+						add(xi, "probe", "cb", "half-open breaker %s has %d trial permits left, spec %d", id, left, wp.Permits)
+					}
 				}
 			case "bh":
 				bh := bs.bulks[id]
